@@ -3,9 +3,11 @@
 //   P <ctxdrive> <ctxdirhex> <patternhex>      -> "V <drive>" (valid; drive the pattern selects) | "I" (invalid)
 //   N <drive> <dirhex> <namehex>               -> "1" | "0"   (against the last P)
 //   Q <ctxdrive> <ctxdirhex> <namehex>         -> "OK <drive> <dirhex> <namehex>" | "BAD"  (parse_filename)
+//   L <entrydirhex> <entrynamehex>             -> "1" | "0"   (CatalogEntry::has_name against the last successful Q)
 #include "afsp.h"
 #include "dfscontext.h"
 #include "fsp.h"
+#include "dfs_catalog.h"
 #include <cstdio>
 #include <iostream>
 #include <sstream>
@@ -31,6 +33,8 @@ int main()
   std::set_terminate([]() { fputs("TERMINATE\n", stdout); fflush(stdout); _exit(3); });
   std::string line;
   std::unique_ptr<DFS::AFSPMatcher> m;
+  DFS::ParsedFileName parsed;
+  bool have_parsed = false;
   while (std::getline(std::cin, line))
     {
       std::istringstream is(line);
@@ -56,10 +60,24 @@ int main()
 	  DFS::DFSContext ctx(unhex(b)[0], DFS::VolumeSelector(static_cast<unsigned>(std::stoul(a))));
 	  DFS::ParsedFileName p;
 	  std::string err;
-	  if (DFS::parse_filename(ctx, unhex(c), &p, err))
-	    printf("OK %s %s %s\n", p.vol.to_string().c_str(), hex(std::string(1, p.dir)).c_str(), hex(p.name).c_str());
+	  have_parsed = DFS::parse_filename(ctx, unhex(c), &p, err);
+	  if (have_parsed)
+	    {
+	      parsed = p;
+	      printf("OK %s %s %s\n", p.vol.to_string().c_str(), hex(std::string(1, p.dir)).c_str(), hex(p.name).c_str());
+	    }
 	  else
 	    puts("BAD");
+	}
+      else if (cmd == "L")
+	{
+	  if (!have_parsed) { puts("0"); continue; }
+	  std::string nm = unhex(b);
+	  DFS::byte name[8], meta[8] = {0};
+	  for (int i = 0; i < 7; ++i) name[i] = i < (int)nm.size() ? static_cast<DFS::byte>(nm[i]) : ' ';
+	  name[7] = static_cast<DFS::byte>(unhex(a)[0]);
+	  DFS::CatalogEntry e(name, meta);
+	  puts(e.has_name(parsed) ? "1" : "0");
 	}
       else puts("ERR");
     }
